@@ -16,7 +16,7 @@ LEVEL = "exploration"
 RULE = ("random lattice arrays (multiples of 1/8, zeros, negatives) for the ten arithmetic commands, every int64/float64 assignment "
         "for n<=4 inputs (sampled for 5), input orders permuted, weights int/float/mixed; plus single-fault cases (shape, weight count, "
         "empty list); distinct by (command, n, dtype assignment, mask classes, param kinds, fault kind)")
-REQUIRED_COUNTERS = ["fields_read_from_a_reused_file", "program_less_fault_checks", "command_object_input_cases", "ref_postconditions", "order_checks", "fault_checks", "zero_divisor_cells", "zero_weight_sum_cases", "repeated_field_cases", "later_command_checks", "fault_reevaluations", "chained_field_cases"]
+REQUIRED_COUNTERS = ["rank0_cases", "fields_read_from_a_reused_file", "program_less_fault_checks", "command_object_input_cases", "ref_postconditions", "order_checks", "fault_checks", "zero_divisor_cells", "zero_weight_sum_cases", "repeated_field_cases", "later_command_checks", "fault_reevaluations", "chained_field_cases"]
 ASSUMPTIONS = ["reference models in mpv/ref.py", "int64 overflow and NaN/inf inputs are never generated", "result dtype is not judged"]
 
 COMMUTATIVE = ("Sum", "Multiply", "Minimum", "Maximum", "Mean", "WeightedSum", "WeightedMean")
@@ -54,6 +54,17 @@ def cases(ctx):
         else:
             big = [rng.choice([2000000000, 50000, 46341, 2147483647, -2147483648, 65536, 3, -40000]) for _ in range(n_)]
             yield {"kind": "chained", "flavour": "wide-integers", "cmd": cmd, "shape": list(shape), "a": big, "b": [rng.choice([2000000000, 50000, 46341, 1, -65536, 2147483647]) for _ in range(n_)]}
+    # complete fields (no missing cell anywhere, zeros among the divisors) copied, the copies combined; and fields of rank 0
+    for i in range(ctx.n(60, 3000)):
+        shape = arr.gen_shape(rng, 20)
+        n_ = int(numpy.prod(shape))
+        yield {"kind": "chained", "flavour": "copies-of-complete-fields", "cmd": rng.choice(["ADividedByB", "ADividedByB", "AMinusB", "Sum", "Mean", "Multiply", "Maximum"]), "shape": list(shape),
+               "a": [arr.lattice_value(rng) for _ in range(n_)], "b": [rng.choice([0.0, 0.0, 2.0, -0.5, 4.0, 0.25]) for _ in range(n_)], "plain": i % 3 == 0}
+    for i in range(ctx.n(40, 2000)):
+        cmd = ARITH[i % len(ARITH)] if "ARITH" in globals() else rng.choice(["Sum", "Multiply", "Mean", "Minimum", "Maximum", "WeightedSum", "WeightedMean", "AMinusB", "ADividedByB", "Copy"])
+        n = 1 if cmd == "Copy" else 2 if cmd in cmdgen.AB else rng.randint(1, 3)
+        yield {"kind": "rank0", "cmd": cmd, "values": [rng.choice([3.5, -2.0, 0.25, 7, -1, 0.0]) for _ in range(n)], "kinds": [rng.choice(["ma", "ma", "plain", "masked"]) for _ in range(n)],
+               "weights": [rng.choice([2, 0.5, 3]) for _ in range(n)]}
     # unsigned integer fields (values small enough for every width)
     for i in range(ctx.n(60, 3000)):
         cmd = rng.choice(["Sum", "Minimum", "Maximum", "Mean", "WeightedSum", "Copy", "ADividedByB", "WeightedMean"])
@@ -163,6 +174,14 @@ def run_chained(ctx, case):
         prog.add_command(prog.find_command_class("Copy"), "C", {"InFieldName": "F"})
         cols = {"C": [Fraction(v) for v in case["fz"]], "X": [Fraction(v) for v in case["x"]]}
         orders = [["C", "X"], ["X", "C"]]
+    elif case["flavour"] == "copies-of-complete-fields":
+        mk = (lambda v: numpy.array(v, dtype="float64").reshape(shape)) if case.get("plain") else (lambda v: numpy.ma.array(numpy.array(v, dtype="float64").reshape(shape)))
+        arr.standin(prog, "A0", mk(case["a"]), fuzzy=False)
+        arr.standin(prog, "B0", mk(case["b"]), fuzzy=False)
+        prog.add_command(prog.find_command_class("Copy"), "A", {"InFieldName": "A0"})
+        prog.add_command(prog.find_command_class("Copy"), "B", {"InFieldName": "B0"})
+        cols = {"A": [Fraction(v) for v in case["a"]], "B": [Fraction(v) for v in case["b"]]}
+        orders = [["A", "B"], ["B", "A"]]
     else:
         arr.standin(prog, "A0", numpy.ma.array(numpy.array(case["a"], dtype="int64").reshape(shape)), fuzzy=False)
         arr.standin(prog, "B0", numpy.ma.array(numpy.array(case["b"], dtype="int64").reshape(shape)), fuzzy=False)
@@ -236,7 +255,39 @@ def _via_file(ctx, cmd, inputs, params, fcols, want, scale):
     return True
 
 
+def run_rank0(ctx, case):
+    """Fields of rank 0 (one number, possibly missing) through the command's arguments: the value of the reference, or missing;
+    whether it comes back as a 0-d array or as a NumPy scalar is not judged."""
+    cmd = case["cmd"]
+    inputs = []
+    for v, k in zip(case["values"], case["kinds"]):
+        inputs.append(numpy.array(float(v)) if k == "plain" else numpy.ma.array(float(v), mask=(k == "masked")))
+    params = {"Weights": list(case["weights"])} if cmd in ("WeightedSum", "WeightedMean") else {}
+    ctx.count("rank0_cases")
+    ctx.feature(("rank0", cmd, tuple(case["kinds"])))
+    out, _ = arr.run_cmd(cmd, inputs, params)
+    cols = [[None if k == "masked" else Fraction(v)] for v, k in zip(case["values"], case["kinds"])]
+    try:
+        want, scale = ref.MODELS[cmd](cols, params)
+    except ref.Undefined as e:
+        ctx.dontcare("%s: %s" % (cmd, e))
+        return
+    ctx.count("ref_postconditions")
+    if not out.ok:
+        ctx.fail("%s:raises-%s:rank-0-fields" % (cmd, out.inner() or out.err), {"error": repr(out.exc)[:200], "kinds": case["kinds"], "values": case["values"]})
+        return
+    got = numpy.ma.asarray(out.value)
+    if got.size != 1:
+        ctx.fail("%s:shape:rank-0-fields" % cmd, {"got": list(got.shape)})
+        return
+    bad = ref.compare(got.reshape(1), want, scale=scale, rel=1e-12)
+    if bad:
+        ctx.fail("%s:%s:rank-0-fields" % (cmd, bad[0]), {"got": bad[2], "want": bad[3], "kinds": case["kinds"], "values": case["values"], "params": params})
+
+
 def run_case(ctx, case):
+    if case["kind"] == "rank0":
+        return run_rank0(ctx, case)
     if case["kind"] == "chained":
         return run_chained(ctx, case)
     cmd, params = case["cmd"], case["params"]
